@@ -36,7 +36,7 @@ fn env() -> &'static Env {
 }
 
 fn lock_req(entry: Entry, amt: u64, rcpt: Rcpt, conf: Conf, lockpol: LockPol, pools: Pools, lock: (u8, u32)) -> Req {
-    Req { entry, amt: Amt::Fixed(amt), rcpt, conf, lockpol, chg: Chg::Single, pools, everything: false, lock: Some(lock) }
+    Req { entry, amt: Amt::Fixed(amt), rcpt, conf, lockpol, chg: Chg::Single, pools, everything: false, lock: Some(lock), selpol: Default::default() }
 }
 
 fn alphabet(thorough: bool) -> Alphabet {
@@ -56,6 +56,7 @@ fn alphabet(thorough: bool) -> Alphabet {
             rewind: vec![1, 3],
             clear_b: true,
             unlock_all: true,
+            mine_transparent_pending: true,
             proposals: vec![
                 lock_req(Entry::Transfer, 30_000, Rcpt::Sapling, Conf::Min, LockPol::Exclude, Pools::All, (0, 0)),
                 lock_req(Entry::Transfer, 100_000, Rcpt::Sapling, Conf::Min, LockPol::Exclude, Pools::All, (1, 50)),
@@ -72,6 +73,7 @@ fn alphabet(thorough: bool) -> Alphabet {
             rewind: vec![1],
             clear_b: false,
             unlock_all: false,
+            mine_transparent_pending: false,
             proposals: vec![
                 lock_req(Entry::Transfer, 30_000, Rcpt::Sapling, Conf::Min, LockPol::Exclude, Pools::All, (0, 0)),
                 lock_req(Entry::Transfer, 100_000, Rcpt::Sapling, Conf::Min, LockPol::PreferLockedX, Pools::All, (1, 50)),
@@ -87,7 +89,7 @@ struct Search {
     /// maximal depth per start state (full, gap, short)
     depth_by_start: [usize; 3],
     /// lattice level evaluated in a state first reached at depth d from start state s (0 full, 1 gap,
-    /// 2 short): 0 = core, 1 = quick, 2 = thorough
+    /// 2 short): 0 = mini, 1 = core, 2 = quick, 3 = thorough
     level_at_depth: fn(usize, usize) -> usize,
     /// share of the remaining wall budget this search may use
     wall_share: f64,
@@ -99,13 +101,13 @@ fn searches(tier: Tier) -> (Vec<Search>, f64) {
     let cap = |d: usize| depth_env.map(|e| e.min(d)).unwrap_or(d);
     match tier {
         Tier::Quick => (
-            vec![Search { name: "quick", thorough_alphabet: false, depth_by_start: [cap(3), cap(2), cap(2)], level_at_depth: |_, d| if d <= 1 { 1 } else { 0 }, wall_share: 1.0 }],
+            vec![Search { name: "quick", thorough_alphabet: false, depth_by_start: [cap(3), cap(2), cap(2)], level_at_depth: |_, d| if d <= 1 { 2 } else if d == 2 { 1 } else { 0 }, wall_share: 1.0 }],
             wall_env.unwrap_or(48.0),
         ),
         Tier::Thorough => (
             vec![
-                Search { name: "wide", thorough_alphabet: true, depth_by_start: [cap(2), cap(2), cap(2)], level_at_depth: |_, d| if d <= 1 { 2 } else { 0 }, wall_share: 0.5 },
-                Search { name: "deep", thorough_alphabet: false, depth_by_start: [cap(4), cap(4), cap(4)], level_at_depth: |_, d| if d <= 2 { 1 } else { 0 }, wall_share: 1.0 },
+                Search { name: "wide", thorough_alphabet: true, depth_by_start: [cap(2), cap(2), cap(2)], level_at_depth: |_, d| if d <= 1 { 3 } else { 1 }, wall_share: 0.5 },
+                Search { name: "deep", thorough_alphabet: false, depth_by_start: [cap(4), cap(4), cap(4)], level_at_depth: |_, d| if d <= 2 { 2 } else if d == 3 { 1 } else { 0 }, wall_share: 1.0 },
             ],
             wall_env.unwrap_or(660.0),
         ),
@@ -146,6 +148,7 @@ fn ops_key(env: &Env, start: usize, ops: &[Op]) -> String {
             Op::Mine { p } => format!("Mine(P{p})"),
             Op::Rewind { back } => format!("Rewind(tip-{back})"),
             Op::FillGap => "FillGap".into(),
+            Op::PutUtxo { i } => format!("PutUtxo({})", env.utxos[*i].label),
             Op::Propose { req } => format!("Propose[{}]", req.key()),
         })
         .collect();
@@ -199,7 +202,7 @@ pub fn replay(kind: &str, case: &Value) -> Result<(), String> {
     let start = case["start"].as_u64().ok_or("case.start")? as usize;
     let ops: Vec<Op> = serde_json::from_value(case["ops"].clone()).map_err(|e| e.to_string())?;
     let req: Option<Req> = serde_json::from_value(case["req"].clone()).map_err(|e| e.to_string())?;
-    let level = case["lattice"].as_u64().unwrap_or(1) as usize;
+    let level = case["lattice"].as_u64().unwrap_or(2) as usize;
     check_case(start, &ops, req.as_ref(), level)
 }
 
@@ -276,7 +279,7 @@ fn profile() {
     });
     db::restore(w.db.conn_mut(), &env.starts[0].1);
     w.refresh_accounts();
-    let lat = oracle::lattice(1);
+    let lat = oracle::lattice(2);
     let ledger = m.ledger(env);
     for r in lat.reqs.iter().step_by(9) {
         let t0 = Instant::now();
@@ -323,7 +326,7 @@ struct Totals {
 
 struct Shared<'a> {
     env: &'a Env,
-    lats: [Lattice; 3],
+    lats: [Lattice; 4],
     failures: Mutex<Vec<Found>>,
     outcomes: Mutex<BTreeMap<String, u64>>,
     /// state key -> highest lattice level already evaluated there (+1), across all searches
@@ -571,10 +574,11 @@ fn search(sh: &Shared, sp: &Search, deadline_s: f64, tot: &mut Totals) -> (Value
     let desc = json!({
         "alphabet": {"locks": al.locks.iter().map(|(o, s, far)| format!("{}:{}:{}", ["X","Y"][*o as usize], model::LOCK_SETS[*s].join("+"), if *far {"tip+50"} else {"tip+1"})).collect::<Vec<_>>(),
                      "unlock": if al.unlock_all { "every (owner in {X,Y}, note holding a lock row)" } else { "every (owner in {X,Y}, one representative note per group of notes locked together)" }, "clear_locks": if al.clear_b { "A, B" } else { "A" },
-                     "store_pending": "P0, P1 (when their inputs are live and build target <= target height <= expiry)", "mine": "stored un-mined pending transactions",
+                     "store_pending": "P0, P1, P2 (when their inputs are live and build target <= target height <= expiry; P2 spends the coin t60 whether or not the wallet knows it yet)", "mine": if al.mine_transparent_pending { "stored un-mined pending transactions" } else { "stored un-mined pending transactions P0, P1" },
+                     "put_utxo": "t60 (while unknown to the wallet and unspent on chain)",
                      "advance": al.advance, "rewind_back": al.rewind, "fill_gap": true, "lock_taking_proposals": al.proposals.iter().map(|r| r.key()).collect::<Vec<_>>()},
         "depth_by_start": {"full": sp.depth_by_start[0], "gap": sp.depth_by_start[1], "short": sp.depth_by_start[2]},
-        "lattice_level_by_start_and_depth": (0..3).map(|s| (0..=sp.depth_by_start[s]).map(|d| ["core", "quick", "thorough"][(sp.level_at_depth)(s, d)]).collect::<Vec<_>>()).collect::<Vec<_>>(),
+        "lattice_level_by_start_and_depth": (0..3).map(|s| (0..=sp.depth_by_start[s]).map(|d| ["mini", "core", "quick", "thorough"][(sp.level_at_depth)(s, d)]).collect::<Vec<_>>()).collect::<Vec<_>>(),
         "completed_depth": completed_depth, "per_depth_new_states": per_depth,
         "states": states, "states_evaluated_here": evaluated_states.load(Ordering::Relaxed), "transitions": transitions, "proposal_calls": evals, "capped": cap,
     });
@@ -606,11 +610,11 @@ pub fn run(args: &Args) -> i32 {
     if std::env::var("VERIF_PROGRESS").is_ok() {
         eprintln!("setup {t_setup:.1}s");
     }
-    let sh = Shared { env, lats: [oracle::lattice(0), oracle::lattice(1), oracle::lattice(2)], failures: Mutex::new(vec![]), outcomes: Mutex::new(BTreeMap::new()), evaluated: Mutex::new(BTreeMap::new()), abandoned: AtomicU64::new(0), t0 };
+    let sh = Shared { env, lats: [oracle::lattice(0), oracle::lattice(1), oracle::lattice(2), oracle::lattice(3)], failures: Mutex::new(vec![]), outcomes: Mutex::new(BTreeMap::new()), evaluated: Mutex::new(BTreeMap::new()), abandoned: AtomicU64::new(0), t0 };
     run.set_rule(
         "explicit-state BFS on the real SQLite wallet from 3 start states (fully scanned / scanned with a gap at the start / scanned to a pre-NU6.3 tip) of the C08 universe; operations: lock_outputs(owner, note set, tip+1|tip+50), \
          unlock_output, clear_locked_outputs, store_transactions_to_be_sent(real pending transaction), Advance(k blocks), Mine(pending), truncate_to_height, FillGap, proposals with a lock request; \
-         states matched on the canonical logical dump of the database + reference model; in every distinct state a request lattice (sizes core/quick/thorough by depth, listed in section `lattices`) is sent to the real proposal \
+         states matched on the canonical logical dump of the database + reference model; in every distinct state a request lattice (sizes mini/core/quick/thorough by depth, listed in section `lattices`) is sent to the real proposal \
          functions; a case is one (state, request) pair: distinct by (state key, request), non-trivial because the state was reached through the real wallet API and the request answered by the real selector",
     );
     run.assume("confirmations are counted as in the ConfirmationsPolicy documentation (blocks since and including the mining block = target height - mined height); notes received under the internal key scope need `trusted` confirmations, all other receipts `untrusted` (no transaction of the universe is user-trusted, none shields transparent funds)");
@@ -661,9 +665,9 @@ pub fn run(args: &Args) -> i32 {
             "setup_s": t_setup,
         }),
     );
-    run.section("lattices", json!({"core": {"requests": sh.lats[0].reqs.len(), "what": sh.lats[0].describe}, "quick": {"requests": sh.lats[1].reqs.len(), "what": sh.lats[1].describe}, "thorough": {"requests": sh.lats[2].reqs.len(), "what": sh.lats[2].describe}}));
-    run.sample(case_json(0, &[Op::Lock { owner: 0, set: 0, far: false }, Op::Advance { k: 1 }], Some(&sh.lats[1].reqs[0]), 1));
-    run.sample(case_json(0, &[Op::Store { p: 0 }, Op::Advance { k: 41 }], Some(&sh.lats[1].reqs[1]), 1));
+    run.section("lattices", json!({"mini": {"requests": sh.lats[0].reqs.len(), "what": sh.lats[0].describe}, "core": {"requests": sh.lats[1].reqs.len(), "what": sh.lats[1].describe}, "quick": {"requests": sh.lats[2].reqs.len(), "what": sh.lats[2].describe}, "thorough": {"requests": sh.lats[3].reqs.len(), "what": sh.lats[3].describe}}));
+    run.sample(case_json(0, &[Op::Lock { owner: 0, set: 0, far: false }, Op::Advance { k: 1 }], Some(&sh.lats[2].reqs[0]), 2));
+    run.sample(case_json(0, &[Op::Store { p: 0 }, Op::Advance { k: 41 }], Some(&sh.lats[2].reqs[1]), 2));
     run.sample(case_json(1, &[Op::FillGap, Op::Lock { owner: 1, set: 1, far: true }], None, 0));
 
     let mut f = std::mem::take(&mut *sh.failures.lock().unwrap());
@@ -722,6 +726,11 @@ pub fn run(args: &Args) -> i32 {
             "op:mine",
             "op:rewind:exact",
             "op:store:unlocked-spent-input",
+            "op:store:spends-coin-not-yet-known",
+            "op:store:spends-known-coin",
+            "op:pututxo:spender-stored-before-coin",
+            "op:pututxo:coin-first",
+            "ok:pending-spent-coin-skipped",
             "state:has-expired-pending",
             "state:pending-expiry-equals-target",
             "state:lock-expiry-equals-target",
